@@ -16,6 +16,18 @@
      inode    - hasattr(x, 'ContentSequence')
      ipay     - everything else that takes part in Dataset.__eq__
    Item equality (Dataset.__eq__, used by list.index) is structural equality.
+   For a junk object (is_item = false) the payload tells the kind of junk:
+     ipay = 1 - a pydicom Dataset that is not a ContentItem (passes pydicom's
+                Sequence._validate; `.name` raises AttributeError),
+     else     - not a Dataset at all (Sequence._validate raises TypeError).
+
+   Also modelled (second half of the file):
+     from_sequence / _check_dataset + the from_dataset chain of TEXT / CONTAINER
+       items (_assert_value_type, ContentItem._from_dataset_base) - datasets are
+       abstracted to record [dset];
+     the methods ContentSequence inherits from collections.abc.MutableSequence /
+       Sequence, which run on top of __getitem__/__setitem__/__delitem__/index:
+       pop, remove, reverse, clear, count.
    NO proofs in this file. *)
 From Coq Require Import String ZArith List Bool.
 From HD Require Import Base.Val Base.PySlice.
@@ -62,9 +74,16 @@ Definition init_check (root sr : bool) (x : item) : option string :=
   else if sr then (if irel x =? 0 then Some EATTR else None)
   else (if negb (irel x =? 0) then Some EATTR else None).
 
+(* isinstance(x, pydicom.Dataset) *)
+Definition is_dataset (x : item) : bool := is_item x || (ipay x =? 1).
+
 Definition init (l : list item) (root sr : bool) : res st :=
   if root && negb sr then Err EVALUE
-  else if existsb (fun x => negb (is_item x)) l then Err ETYPE  (* pydicom Sequence._validate *)
+  else if existsb (fun x => negb (is_item x)) l then
+    (* super().__init__(items): pydicom Sequence._validate raises TypeError for a non-Dataset;
+       otherwise the first loop `self._lut[i.name].append(i)` raises AttributeError at the
+       first Dataset that is no ContentItem (it has no `.name`) - before any _check_item *)
+    Err (if existsb (fun x => negb (is_dataset x)) l then ETYPE else EATTR)
   else match first_err (init_check root sr) l with
        | Some e => Err e
        | None => Ok (St l (fold_left lut_add l empty_lut) root sr)
@@ -303,6 +322,142 @@ Definition get_nodes (s : st) : res (list item) :=
   | Err e => Err e
   end.
 
+(* ---- from_sequence / _check_dataset ------------------------------------------------------ *)
+(* a pydicom Dataset handed to ContentSequence.from_sequence, abstracted to what
+   _check_dataset, <Class>.from_dataset (_assert_value_type) and
+   ContentItem._from_dataset_base look at *)
+Record dset := DSet {
+  d_isds : bool;     (* isinstance(dataset, Dataset) *)
+  d_vt : Z;          (* ValueType: 0 = attribute missing, 1 = 'TEXT', 2 = 'CONTAINER', other = no value type *)
+  d_hasval : bool;   (* has the attribute required for its value type (TextValue / ContinuityOfContent) *)
+  d_hasname : bool;  (* has ConceptNameCodeSequence *)
+  d_name : Z; d_rel : Z;
+  d_kids : Z;        (* ContentSequence: 0 = no such attribute, 1 = well-formed children,
+                        2 = a child lacks RelationshipType, other = a child has an unknown ValueType *)
+  d_pay : Z }.
+
+(* per dataset, in the order of the code: _check_dataset, then
+   ContentItem._from_dataset_derived -> <Class>.from_dataset -> _assert_value_type ->
+   _from_dataset_base (name, then the nested from_sequence(item.ContentSequence) with
+   the default flags is_root=False, is_sr=True) *)
+Definition ds_check (root sr : bool) (d : dset) : option string :=
+  if negb (d_isds d) then Some ETYPE
+  else if d_vt d =? 0 then Some EATTR
+  else if negb ((d_vt d =? 1) || (d_vt d =? 2)) then Some EVALUE
+  else if (d_rel d =? 0) && negb root && sr then Some EATTR
+  else if negb (d_hasval d) then Some EATTR
+  else if negb (d_hasname d) then Some EATTR
+  else if d_kids d =? 0 then None
+  else if d_kids d =? 1 then None
+  else if d_kids d =? 2 then Some EATTR
+  else Some EVALUE.
+
+(* the ContentItem the dataset becomes (item.__class__ = cls) *)
+Definition to_item (d : dset) : item :=
+  Item true (d_name d) (d_rel d) (d_vt d =? 2) (negb (d_kids d =? 0)) (d_pay d).
+
+(* for i, dataset in enumerate(sequence, 1): cls._check_dataset(...); item = ..._from_dataset_derived(...)
+   return ContentSequence(content_items, is_root=is_root, is_sr=is_sr) *)
+Definition from_sequence (ds : list dset) (root sr : bool) : res st :=
+  match first_err (ds_check root sr) ds with
+  | Some e => Err e
+  | None => init (map to_item ds) root sr
+  end.
+
+(* ---- methods inherited from collections.abc.MutableSequence / Sequence ------------------- *)
+(* ConstrainedList.__getitem__(int) *)
+Definition getitem_int (s : st) (i : Z) : res item :=
+  match norm_index i (zlen (items s)) with
+  | None => Err EINDEX
+  | Some p => match nth_error (items s) p with Some x => Ok x | None => Err EINDEX end
+  end.
+
+(* pop(index=-1): v = self[index]; del self[index]; return v *)
+Definition pop (s : st) (i : Z) : st * res item :=
+  match getitem_int s i with
+  | Err e => (s, Err e)
+  | Ok v => let '(s', e) := delitem_int s i in
+            (s', match e with None => Ok v | Some k => Err k end)
+  end.
+
+(* remove(value): del self[self.index(value)] *)
+Definition remove (s : st) (x : item) : st * option string :=
+  match index s x with
+  | Err e => (s, Some e)
+  | Ok k => delitem_int s k
+  end.
+
+(* self[i], self[j] = self[j], self[i] : right-hand side first, then the two assignments in order *)
+Definition swap (s : st) (i j : Z) : st * option string :=
+  match getitem_int s j with
+  | Err e => (s, Some e)
+  | Ok b => match getitem_int s i with
+            | Err e => (s, Some e)
+            | Ok a => match setitem_int s i b with
+                      | (s1, None) => setitem_int s1 j a
+                      | r => r
+                      end
+            end
+  end.
+
+(* reverse(): n = len(self); for i in range(n // 2): self[i], self[n-i-1] = self[n-i-1], self[i] *)
+Fixpoint reverse_loop (fuel : nat) (i n : Z) (s : st) : st * option string :=
+  match fuel with
+  | O => (s, None)
+  | S fuel' => match swap s i (n - i - 1) with
+               | (s', None) => reverse_loop fuel' (i + 1) n s'
+               | r => r
+               end
+  end.
+Definition reverse (s : st) : st * option string :=
+  let n := zlen (items s) in reverse_loop (Z.to_nat (n / 2)) 0 n s.
+
+(* clear(): try: while True: self.pop()  except IndexError: pass
+   fuel = len + 1: one pop per item and the final one that raises IndexError *)
+Fixpoint clear_loop (fuel : nat) (s : st) : st * option string :=
+  match fuel with
+  | O => (s, None)
+  | S fuel' => match pop s (-1) with
+               | (s', Ok _) => clear_loop fuel' s'
+               | (s', Err e) => if String.eqb e EINDEX then (s', None) else (s', Some e)
+               end
+  end.
+Definition clear (s : st) : st * option string := clear_loop (S (length (items s))) s.
+
+(* count(value): sum(1 for v in self if v is value or v == value) *)
+Definition count (s : st) (x : item) : Z := zlen (filter (fun y => item_eqb y x) (items s)).
+
+(* all mutating operations *)
+Inductive xop :=
+| Op (o : op)
+| Pop (i : Z)
+| Remove (x : item)
+| Reverse
+| Clear.
+
+(* new state, and: error class / returned item (pop) / nothing *)
+Definition xstep (s : st) (o : xop) : st * res (option item) :=
+  let lift (r : st * option string) : st * res (option item) :=
+    (fst r, match snd r with None => Ok None | Some e => Err e end) in
+  match o with
+  | Op o => lift (step s o)
+  | Pop i => let '(s', r) := pop s i in
+             (s', match r with Ok v => Ok (Some v) | Err e => Err e end)
+  | Remove x => lift (remove s x)
+  | Reverse => lift (reverse s)
+  | Clear => lift (clear s)
+  end.
+
+Definition xrun (s : st) (ops : list xop) : st := fold_left (fun s o => fst (xstep s o)) ops s.
+
+(* the two constructors *)
+Inductive ctor := FromList (l : list item) | FromSeq (ds : list dset).
+Definition construct (c : ctor) (root sr : bool) : res st :=
+  match c with
+  | FromList l => init l root sr
+  | FromSeq ds => from_sequence ds root sr
+  end.
+
 (* ---- boundary functions for the correspondence run -------------------------------------- *)
 Definition vitem (x : item) : val :=
   VL [VZ (iname x); VZ (irel x); VB (icont x); VB (inode x); VZ (ipay x)].
@@ -330,7 +485,8 @@ Definition observe (names : list Z) (qs : list item) (s : st) : val :=
       VL (map (fun x => vres VZ (index s x)) qs);
       VL (map (fun x => vres VB (contains s x)) qs);
       vres vitems (get_nodes s);
-      VB (is_root s); VB (is_sr s)].
+      VB (is_root s); VB (is_sr s);
+      VL (map (fun x => VZ (count s x)) qs)].
 
 Fixpoint run_ops (names : list Z) (qs : list item) (s : st) (ops : list op) : list val :=
   match ops with
@@ -344,6 +500,24 @@ Definition run_history (root sr : bool) (l0 : list item) (names : list Z) (qs : 
   match init l0 root sr with
   | Err e => VErr e
   | Ok s => VL (observe names qs s :: run_ops names qs s ops)
+  end.
+
+Definition vxres (r : res (option item)) : val :=
+  match r with Ok None => VNone | Ok (Some v) => vitem v | Err e => VErr e end.
+
+Fixpoint run_xops (names : list Z) (qs : list item) (s : st) (ops : list xop) : list val :=
+  match ops with
+  | [] => []
+  | o :: os => let '(s', r) := xstep s o in
+               VL [vxres r; observe names qs s'] :: run_xops names qs s' os
+  end.
+
+(* a history over ALL mutating operations, from either constructor *)
+Definition run_xhistory (root sr : bool) (c : ctor) (names : list Z) (qs : list item)
+           (ops : list xop) : val :=
+  match construct c root sr with
+  | Err e => VErr e
+  | Ok s => VL (observe names qs s :: run_xops names qs s ops)
   end.
 
 (* item equality alone (Dataset.__eq__ vs structural equality) *)
